@@ -971,6 +971,32 @@ static void sc_cs(SB* s, Toks* k)
 		sb_printf(s, " w=%d:", st);
 		sb_hexq(s, b, nb);
 		free(b);
+		if (!st)
+		{
+			/* the column-slice entry points themselves: sbdf_cs_read, sbdf_cs_skip, sbdf_cs_destroy_all */
+			sbdf_columnslice* rcs = (sbdf_columnslice*)(void*)1;
+			int e2;
+			rewind(g_f);
+			e2 = sbdf_cs_read(g_f, &rcs);
+			sb_printf(s, " csr=%d", e2);
+			if (!e2)
+			{
+				int j;
+				sb_printf(s, "@%ld:%d:%d", ftell(g_f), sbdf_cs_row_cnt(rcs), rcs->prop_cnt);
+				for (j = 0; j < rcs->prop_cnt; ++j)
+				{
+					sbdf_valuearray* pv = 0;
+					sb_printf(s, ",%d", sbdf_cs_get_property(rcs, rcs->property_names[j], &pv));
+					if (pv != rcs->properties[j]) sb_puts(s, "!WRONGPROP");
+				}
+				sbdf_cs_destroy_all(rcs);
+			}
+			else if (rcs != (sbdf_columnslice*)(void*)1 && rcs != 0) sb_puts(s, "!OUTSET");
+			rewind(g_f);
+			e2 = sbdf_cs_skip(g_f);
+			sb_printf(s, " css=%d", e2);
+			if (!e2) sb_printf(s, "@%ld", ftell(g_f));
+		}
 		st = sbdf_ts_create(0, &ts);
 		sb_printf(s, " ts=%d", st);
 		{
@@ -1051,6 +1077,70 @@ static void sc_fr(SB* s, Toks* k, int rewrite)
 	read_file(s, (size_t)l, subset, 1, rewrite);
 	sb_printf(s, " live=%ld", vf_live - live0);
 	free(b);
+}
+
+/* oarr OBJ : the object entry points themselves (C07/C02/C15): sbdf_obj_write_arr / _read_arr /
+   _skip_arr on the packed form, sbdf_obj_write / _read / _skip on the unpacked form, and
+   sbdf_obj_create for a single value */
+static void sc_oarr(SB* s, Toks* k)
+{
+	sbdf_object* o = 0;
+	sbdf_object* rd;
+	long live0 = vf_live;
+	int err, st, pass;
+	size_t n;
+	unsigned char* b;
+	err = parse_obj(k, &o);
+	if (err) { sb_printf(s, "obj=%d", err); sbdf_obj_destroy(o); return; }
+	for (pass = 0; pass < 2; ++pass)
+	{
+		/* pass 0: packed array form, pass 1: unpacked form */
+		f_reset(g_f);
+		st = pass ? sbdf_obj_write(o, g_f) : sbdf_obj_write_arr(o, g_f);
+		sb_printf(s, "%sw%c=%d", pass ? " " : "", pass ? 'u' : 'a', st);
+		if (st) continue;
+		b = f_slurp(g_f, &n);
+		sb_puts(s, ":");
+		sb_hexq(s, b, n);
+		free(b);
+		fseek(g_f, 0, SEEK_END);
+		fwrite("\xde\xad\xbe\xef", 1, 4, g_f);
+		fflush(g_f);
+		rewind(g_f);
+		rd = (sbdf_object*)(void*)1;
+		st = pass ? sbdf_obj_read(g_f, o->type, &rd) : sbdf_obj_read_arr(g_f, o->type, &rd);
+		sb_printf(s, " r%c=%d", pass ? 'u' : 'a', st);
+		if (!st)
+		{
+			sb_printf(s, "@%ld:", ftell(g_f));
+			dump_obj(s, rd);
+			sb_printf(s, ":eq=%d", sbdf_obj_eq(o, rd));
+			sbdf_obj_destroy(rd);
+		}
+		else if (rd != (sbdf_object*)(void*)1 && rd != 0) sb_puts(s, "!OUTSET");
+		rewind(g_f);
+		st = pass ? sbdf_obj_skip(g_f, o->type) : sbdf_obj_skip_arr(g_f, o->type);
+		sb_printf(s, " s%c=%d", pass ? 'u' : 'a', st);
+		if (!st) sb_printf(s, "@%ld", ftell(g_f));
+	}
+	if (o->count == 1)
+	{
+		/* the single-value constructor on the same data gives an equal, independent object */
+		sbdf_object* single = (sbdf_object*)(void*)1;
+		if (is_arr(o->type.id))
+		{
+			unsigned char* e = ((unsigned char**)o->data)[0];
+			int l = o->type.id == SBDF_STRINGTYPEID ? sbdf_str_len((char*)e) : sbdf_ba_get_len(e);
+			void const* ptrs[1];
+			ptrs[0] = e;
+			st = sbdf_obj_create(o->type, ptrs, &l, &single);
+		}
+		else st = sbdf_obj_create(o->type, o->data, 0, &single);
+		sb_printf(s, " one=%d", st);
+		if (!st) { sb_puts(s, ":"); dump_obj(s, single); sb_printf(s, ":eq=%d", sbdf_obj_eq(o, single)); sbdf_obj_destroy(single); }
+	}
+	sbdf_obj_destroy(o);
+	sb_printf(s, " live=%ld", vf_live - live0);
 }
 
 /* fsk HEX : header, table metadata, then sbdf_ts_skip until a non-OK status (C07) */
@@ -1204,6 +1294,7 @@ static void process_line(char* line, SB* s)
 	else if (!strcmp(kind, "rtw")) sc_rt(s, &k, 1);
 	else if (!strcmp(kind, "rtd")) sc_rt(s, &k, 2);
 	else if (!strcmp(kind, "cs")) sc_cs(s, &k);
+	else if (!strcmp(kind, "oarr")) sc_oarr(s, &k);
 	else if (!strcmp(kind, "fsk")) sc_fsk(s, &k);
 	else if (!strcmp(kind, "oskip")) sc_oskip(s, &k);
 	else if (!strcmp(kind, "fr")) sc_fr(s, &k, 0);
